@@ -17,16 +17,16 @@ Definition with_rinput (a : list Z) (f : Z -> rinput -> list Z) : list Z :=
   | [] => [-1]
   end.
 
-(** cmd 80 -- [lang; rinput] -> report, the loop order / previous-year reference as the source has them
-    cmd 81 -- the repaired behaviour (sorted years, previous existing year)
-    cmd 82 -- the behaviour of the unrepaired source (first-seen order, year - 1)
-    cmd 83 -- [ys; pe; lang; rinput] *)
+(** cmd 80 -- [lang; rinput] -> report, with the three structural facts as the source has them
+    cmd 81 -- the repaired behaviour (sorted years, previous existing year, yen value of a transfer fee guarded by the crypto fee)
+    cmd 82 -- the behaviour of the unrepaired source (first-seen order, year - 1, yen value guarded by itself)
+    cmd 83 -- [ys; pe; yg; lang; rinput] *)
 Definition entry_jp (a : list Z) : list Z :=
-  with_rinput a (fun lang i => enc_jp (jp_report lang gen_jp_years_sorted gen_jp_prev_existing_year i)).
-Definition entry_jp_repaired (a : list Z) : list Z := with_rinput a (fun lang i => enc_jp (jp_report lang true true i)).
-Definition entry_jp_unrepaired (a : list Z) : list Z := with_rinput a (fun lang i => enc_jp (jp_report lang false false i)).
+  with_rinput a (fun lang i => enc_jp (jp_report lang gen_jp_intra_yen_guard_on_crypto gen_jp_years_sorted gen_jp_prev_existing_year i)).
+Definition entry_jp_repaired (a : list Z) : list Z := with_rinput a (fun lang i => enc_jp (jp_report lang true true true i)).
+Definition entry_jp_unrepaired (a : list Z) : list Z := with_rinput a (fun lang i => enc_jp (jp_report lang false false false i)).
 Definition entry_jp_flags (a : list Z) : list Z :=
   match a with
-  | ys :: pe :: s => with_rinput s (fun lang i => enc_jp (jp_report lang (ys =? 1) (pe =? 1) i))
+  | ys :: pe :: yg :: s => with_rinput s (fun lang i => enc_jp (jp_report lang (yg =? 1) (ys =? 1) (pe =? 1) i))
   | _ => [-1]
   end.
